@@ -138,7 +138,12 @@ def history(ctx, rng, length, hid):
                 changed = effects(n) != before_live[k]
                 if isinstance(n, canopen.RemoteNode):
                     mine = can_id in (0x580 + k, 0x80 + k, 0x700 + k) and len(data) >= (8 if can_id == 0x80 + k else 1)
-                    if mine and not changed:
+                    if can_id == 0x700 + k and mine:
+                        # a heartbeat always leaves its timestamp and state behind (it may equal what was there before)
+                        code = data[0] & 0x7F
+                        if n.nmt.timestamp != ts or n.nmt._state != (127 if code == 0 else code):
+                            ctx.violation("live-node-missed-frame:remote", f"heartbeat {can_id:#x} [{bytes(data).hex()}] at {ts} left state {n.nmt._state} / timestamp {n.nmt.timestamp} on live RemoteNode {k}", case())
+                    elif mine and not changed:
                         ctx.violation("live-node-missed-frame:remote", f"frame {can_id:#x} had no effect on live RemoteNode {k}", case())
                     if changed and not mine and can_id != 0:
                         ctx.violation("node-received-foreign-frame:remote", f"frame {can_id:#x} changed RemoteNode {k}: {before_live[k]} -> {effects(n)}", case())
